@@ -68,12 +68,16 @@ const (
 	outDeadline // returns context.DeadlineExceeded
 	outErrFB    // returns the very value the fallback returns
 	outPanicSU  // panic(ErrServiceUnavailable)
+	// the caller's predicate as a user callback with a behaviour of its own (it looks at side state)
+	outOkRej     // returns nil; the predicate says "unacceptable" (rest/httpc: a 5xx response behind a nil error)
+	outErrUAcc   // returns the unacceptable error; the predicate accepts it this time
+	outPredPanic // returns nil; the predicate panics
 )
 
 // verifOutcome is the tail of every request callback: return the error / raise the panic.
 func verifOutcome(outc int64, pv any) error {
 	switch outc {
-	case outErrU:
+	case outErrU, outErrUAcc:
 		return verifErrU
 	case outErrA:
 		return verifErrA
@@ -98,6 +102,40 @@ func verifOutcome(outc int64, pv any) error {
 // the caller's predicate of DoWithAcceptable / DoWithFallbackAcceptable
 func verifAcceptable(err error) bool {
 	return err == nil || err == verifErrA || err == verifErrSUW || err == context.Canceled
+}
+
+// verifPredState: what the caller's predicate of ONE call saw
+type verifPredState struct {
+	calls, argOK int64
+	ret          error
+	retSet       bool
+}
+
+// returned is called by the request with the value it is about to return
+func (st *verifPredState) returned(err error) error {
+	st.ret, st.retSet = err, true
+	return err
+}
+
+// verifPred builds the caller's predicate of one call.  It counts how often it is asked and
+// whether it is asked about the value the request returned (nil included); for the outcomes
+// above it answers from side state of the request, or panics.
+func verifPred(outc int64, pv any, st *verifPredState) Acceptable {
+	return func(err error) bool {
+		st.calls++
+		if st.retSet && err == st.ret {
+			st.argOK++
+		}
+		switch outc {
+		case outOkRej:
+			return false
+		case outErrUAcc:
+			return true
+		case outPredPanic:
+			panic(pv)
+		}
+		return verifAcceptable(err)
+	}
 }
 
 // class of a recovered panic value
@@ -254,8 +292,6 @@ func verifRunCase(c verifC01Case) (out verifC01Out) {
 
 	cancelled, cancel := context.WithCancel(context.Background())
 	cancel()
-	acceptable := verifAcceptable
-
 	for i, k := range c.Calls {
 		entry, ctxm, outc, gap, dur, m := k[0], k[1], k[2], k[3], k[4], k[5]
 		timex.AdvanceFake(time.Duration(gap))
@@ -274,11 +310,13 @@ func verifRunCase(c verifC01Case) (out verifC01Out) {
 		if ctxm == 3 {
 			ctx, cancelNow = context.WithCancel(context.Background())
 		}
+		var pst verifPredState
+		acceptable := verifPred(outc, any(pv), &pst)
 		req := func() error {
 			reqRuns++
 			timex.AdvanceFake(time.Duration(dur))
 			cancelNow()
-			return verifOutcome(outc, pv)
+			return pst.returned(verifOutcome(outc, pv))
 		}
 		fb := func(err error) error {
 			fbRuns++
@@ -322,7 +360,7 @@ func verifRunCase(c verifC01Case) (out verifC01Out) {
 		}
 		out.Obs = append(out.Obs, []int64{res, reqRuns, fbRuns, fbArgOK, src.draws, last,
 			s.acc, s.tot, s.failing, s.working, s.fail, s.drop,
-			pre.accepts, pre.total, pre.failingBuckets, pre.workingBuckets})
+			pre.accepts, pre.total, pre.failingBuckets, pre.workingBuckets, 10*pst.calls + pst.argOK})
 	}
 	return
 }
